@@ -12,865 +12,759 @@ Definition show_fres (r : fres) : string :=
   end.
 Definition check (rs : list rune) : string := digest (show_fres (format_res rs)).
 Definition full (rs : list rune) : string := show_fres (format_res rs).
-Eval vm_compute in ("<<<M1365>>>" ++ check (runes_of_ascii "// top
-options // c0a
-  // c0b
-{ // c1
-StringPrefixLenType // c2a
-  // c2b
-= // c3
-u8
-    // c4
-; // c5a
-  // c5b
-ArrayPrefixLenType // c6
-= // c7a
-  // c7b
-u8 // c8
-; // c9
-FixedStringPadFromLeft
-    // c10
-= // c11
-false ; // c13
-FixedStringPadChar
-    // c14
-= ' ' ; // c17a
-  // c17b
-}
-    // c18
-packet // c19
-Ack
-    // c20
-{
-    // c21
-char[]
-    // c22
-tag7
-    // c23
-, }
-    // c25
-packet Reject // c27a
-  // c27b
-{ InSym61 // c29a
-  // c29b
-{ // c30
-repeat // c31
-Ack , zchar[ // c34
-4 ] // c36a
-  // c36b
-f1 // c37a
-  // c37b
-, } // c39a
-  // c39b
-, } // c41
-packet // c42a
-  // c42b
-Logout {
-    // c44
-char[ // c45a
-  // c45b
-4 // c46a
-  // c46b
-] // c47a
-  // c47b
-clOrdID
-    // c48
-, // c49
-}
-    // c50
-root // c51
-packet // c52a
-  // c52b
-Cancel // c53a
-  // c53b
-{ @leftPad
-    // c55
-( // c56a
-  // c56b
-' ' // c57a
-  // c57b
-) char[ 10 // c60a
-  // c60b
-] price
-    // c62
-,
-    // c63
-u8 // c64
-x
-    // c65
-, u32 // c67a
-  // c67b
-venue // c68a
-  // c68b
-@lengthOf( // c69
-Body
-    // c70
-) , // c72
-match // c73a
-  // c73b
-x // c74a
-  // c74b
-as
-    // c75
-Body
-    // c76
-{
-    // c77
-[ // c78a
-  // c78b
-92 // c79
-, 175 // c81
-] : Logout , 26 :
-    // c87
-Reject // c88
-, // c89a
-  // c89b
-144
-    // c90
-: // c91
-Ack // c92a
-  // c92b
-, } // c94
-, // c95
-u16
-    // c96
-count // c97
-@calculatedFrom(
-    // c98
-""CRC32""
-    // c99
-) // c100
-, } ")).
-Eval vm_compute in ("<<<M1857>>>" ++ check (runes_of_ascii "packet _x {
-    leftPad `it's`,
-    match Logon as matchKey {
-        ""packet"" : stringy,
-        3 : u,
-        //
-        ""1"" : Pad,
-    },
-    float32 Z9_ @lengthOf(i8i8) `" ++ [233]%N ++ runes_of_ascii "`,
-    @tag(3)
-    match As as Pad {
-        """" : chars,
-        ""x y"" : i64_,
-    },
-    @calculatedFrom(""it's"")
-    @leftPad(' ')
-    zchar[0123456789] falsey,
-    match A as packetx {
-        [42] : matchKey,
-    },
-    @leftPad(' ')
-    match x as a1 {
-        ""packet"" : a1,
-        10 : pack,
-        ""{,}"" : u8x,
-        [007, 00] : trueish,
-        ""x y"" : pack,
-        """ ++ [233]%N ++ runes_of_ascii "t" ++ [233]%N ++ runes_of_ascii """ : matchKey,
-    },
-    @leftPad('0')
-    uint8x u,
-    zchar[3] u ``,
-    @rightPad(' ')
-    repeat _x ``,
-}
-
-MetaData Foo {
-    a1 Z9_,
-    options1 T,
-    u32 u8x `crlf
-        line`,
-    metadata falsey,
-    lengthOf x_y_z,
-}
-
-packet calculatedFrom {
-    @tag(3)
-    string A,
-    match leftPad as a1 {
-        //	t
-        0123456789 : calculatedFrom,
-    },
-    match crc as body {
-        00 : _x,
-    },
-    o @calculatedFrom(""x y""),
-}
-
-packet T {
-}
-
-packet Logon {
-    @leftPad('\x00')
-    As @calculatedFrom(""a	b"") `line1
-        line2`,
-    pack lengthOf,
-}// `tick` ""quote"" 'q'")).
-Eval vm_compute in ("<<<M1696>>>" ++ check (runes_of_ascii "  options
-
-{FixedStringPadFromLeft
-=	true ;
-FixedStringPadChar 
-=
-'0' ; }packet Leg
-{	InPrice0{
-    repeat	string clOrdID
-
-    ,  int16 msgKind
-, zchar[
-5 ]
-	Px 
-, }, i16  f1
-, repeat
-    f64
-
-    Side2 ,
-
-    string Acct,	}	packet Cancel
-
-{
-
-    zchar[4 ] 
-clOrdID
-,
-	string seqNo ,
-
-    Leg ,
-
-@leftPad 
-(
-    '0'
-	)char[11
-
-    ] OrderId
-
-    , }  packet
-    Quote
-{ repeat	char[ 4]
-
-    sym
-	,
-	f64
-OrderId
-,
-repeat Leg
-
-    ,repeat
-
-i64  f1
-	,  int16
-
-Note, zchar[ 3
-    ] count 
-,  }
-root 
-packet
-Ack	{
-
-    @leftPad
-
-(
-
-    ' '
-)
-char[ 10
-    ] sym
-
-    , InPx60 {	Cancel	,
-	repeat char[
-1
-
-]
-
-f1
-
-,
-string
-Tail,
-    repeat
-
-InNote55	{
-int8 
-count	,f64 f1
-
-,repeat
-
-    Cancel  ,
-	}
-,
-char[]	tag7	,
-    repeat string
-
-msgKind
-    ,}
-,u8 lastPx ,
-    match
-	lastPx
-    as 
-Body
-{
-    152 
-:  Quote  ,
-
-    173
-:
-    Cancel  ,4
-	: 
-Leg ,
-} ,
-	u16
-
-    Ref @calculatedFrom( ""CR\
-C32"")  ,  }
-")).
-Eval vm_compute in ("<<<M28>>>" ++ check (runes_of_ascii "options
-    { string_
-= false
-    ; falsey  = char[// " ++ [128512]%N ++ runes_of_ascii " emoji
-4294967296 ] ; } packet
-    zchar{match float as len { [ """ ++ [233]%N ++ runes_of_ascii "t" ++ [233]%N ++ runes_of_ascii """ ]:
+Eval vm_compute in ("<<<M313>>>" ++ check (runes_of_ascii "options { BodyLength = char[ 7] ;	}
+// c
+// @lengthOf(
+packet asx// " ++ [128512]%N ++ runes_of_ascii " emoji
+{ int16
+    x_y_z , @calculatedFrom(
+    """" ) @lengthOf(
+    /// triple
+    chars) //
+repeat repeatCount
+charz
+/// triple
+// " ++ [27880; 37322]%N ++ runes_of_ascii "
+, @leftPad ( ) i64_@calculatedFrom(
+""\" ++ [233]%N ++ runes_of_ascii """	) `// not a comment` , tag Z9_
+`two words` ,
+@lengthOf( asx
+)@calculatedFrom(
+""`tick`""
+    )match uint8x as
 matchKey
-    , 3 : // " ++ [27880; 37322]%N ++ runes_of_ascii "
-u [ 4294967296
-, ""1"" ] :
-// `tick` ""quote"" 'q'
-// c
-zchar , } // c
-,} MetaData
-    // @lengthOf(
-    T {
-// c
+    {0123456789
+// packet A { u8 x, }
 // a // b
-}	packet packetx  { uint16 uint8x @calculatedFrom( ""it's"" ) ,
-stringy { i16 crc
-`{ , }`	, }
-, zchar[ 00
-] x
-,
-    zchar{ uint64 tag , zchar
-f32a	`say ""hi""` , uint32 A `{ , }` , match _x as
-falsey
-{ [ 007// " ++ [128512]%N ++ runes_of_ascii " emoji
-,
-    """ ++ [128512]%N ++ runes_of_ascii """] :
-    matchKey// " ++ [128512]%N ++ runes_of_ascii " emoji
-[ 0123456789,3 ] : T
-// " ++ [128512]%N ++ runes_of_ascii " emoji
-// `tick` ""quote"" 'q'
-1: Foo ,
+: u8x ,1 : zchar , } ,u128 @lengthOf( u128 // packet A { u8 x, }
+)// " ++ [128512]%N ++ runes_of_ascii " emoji
+, } MetaData	msg_type  {
+string
+BodyLength  `two words` , options1// " ++ [128512]%N ++ runes_of_ascii " emoji
+i64_ ,
+    }// " ++ [128512]%N ++ runes_of_ascii " emoji
+packet roots { u `` , @calculatedFrom( ""a	b"")match len as	msg_type{
+    // c
+    """ ++ [28040; 24687]%N ++ runes_of_ascii """
+:
+charz}, crc @calculatedFrom(
+// packet A { u8 x, }
+// packet A { u8 x, }
+""it's"" ) `a\`
+,@leftPad
+( '0' )@tag( 007	) zchar[// trailing space 
+3
+    // trailing space 
+    ] falsey ,  @calculatedFrom(// `tick` ""quote"" 'q'
+""\n""
+    )@calculatedFrom(""CRC32""// c
+)
+    // trailing space 
+    match
+    //x
+    Packet as // @lengthOf(
+stringy	{ 1:
+Pad
+, ""it's"" :f32a ,
+} , @leftPad (
+' '
+)
+    match // " ++ [27880; 37322]%N ++ runes_of_ascii "
+int as	a1 { [ 0123456789 ,255]
+    :
+    options1
+//x
+//x
 }
-    ,// trailing space 
-} ,A ,
-    zchar[
+    ,BodyLength
+    //
+    @calculatedFrom( """ ++ [28040; 24687]%N ++ runes_of_ascii """ ),
+float32
+    zchar
+@calculatedFrom( ""// no comment""
+)
+,	@tag( 10 ) zchar[
     // packet A { u8 x, }
-    4294967296 ] string_ @lengthOf( float ) ,match rootA as As
-    { [ ""it's"",
-255 , 0123456789 ,
+    1  ] rootA , }
+")).
+Eval vm_compute in ("<<<M1805>>>" ++ check (runes_of_ascii "// trailing space 
+packet charz {
+    @calculatedFrom(""1"")
+    match x as tag {
+        [
+            7, 0, 65535, ""it's"", 0,
+            ""x y"", 255
+        ] : tag,
+        [""1"", 3, 007, 255, ""x y""] : pack,
+        [
+            """ ++ [233]%N ++ runes_of_ascii "t" ++ [233]%N ++ runes_of_ascii """, 7, 10, 3, 0,
+            ""a\""b""
+        ] : leftPad,
+        [65535, ""x y""] : chars,
+        [""\n"", 65535, ""a\\""] : A,
+        ""\n"" : lengthOf,
+    },
+    match string_ as i8i8 {
+        7 : msg_type,
+        // c
+        ""abc"" : tag,
+        ""a\""b"" : metadata,
+        255 : matchKey,
+        [
+            ""CRC32"", ""1"", 007, ""packet"", ""a\\"",
+            ""a\""b"", 007, 4294967296
+        ] : lengthOf,
+    },
+    uint16 pack,
+    string Pad @lengthOf(o) `say ""hi""`,
+    repeat i8 body,
+    @lengthOf(crc)
+    float64 body `// not a comment`,
+    repeat rootA {
+        int16 x_y_z `tab	here`,
+        falsey @calculatedFrom(""{,}""),
+        trueish @lengthOf(crc) `{ , }`,
+    },
+    match Pad as Header {
+        4294967296 : Header,
+        ""\n"" : msg_type,
+        ""a	b"" : x_y_z,
+    },
+    //	t
+    Logon,
+}")).
+Eval vm_compute in ("<<<M1309>>>" ++ check (runes_of_ascii "// top
+packet // c0a
+  // c0b
+A { // c2
+u8 // c3a
+  // c3b
+a , // c5
+} // c6a
+  // c6b
+packet // c7a
+  // c7b
+B {
+    // c9
+u16 b // c11
+, } // c13a
+  // c13b
+packet // c14
+C
+    // c15
+{
+    // c16
+u32
+    // c17
+c // c18
+, // c19a
+  // c19b
+}
+    // c20
+root packet // c22a
+  // c22b
+M // c23
+{ u16 Kc
+    // c26
+,
+    // c27
+u16 // c28a
+  // c28b
+Kb , // c30
+u16 Ka
+    // c32
+, match // c34a
+  // c34b
+Kc // c35
+as X
+    // c37
+{
+    // c38
+9 // c39
+:
+    // c40
+A
+    // c41
+, 10 :
+    // c44
+B
+    // c45
+,
+    // c46
+} , match
+    // c49
+Kb // c50
+as // c51a
+  // c51b
+Y // c52
+{ 2 // c54a
+  // c54b
+:
+    // c55
+C , // c57
+1 // c58
+: A , // c61a
+  // c61b
+} // c62
+, // c63a
+  // c63b
+match
+    // c64
+Ka as // c66
+Z // c67
+{
+    // c68
+1 // c69a
+  // c69b
+: B // c71a
+  // c71b
+, // c72
+} // c73a
+  // c73b
+, // c74
+A // c75a
+  // c75b
+, // c76
+B
+    // c77
+,
+    // c78
+C , // c80
+} ")).
+Eval vm_compute in ("<<<M1770>>>" ++ check (runes_of_ascii "
+
+  packet
+charz  {	//	t
+      repeat
+
+    i64_,
+
+    trueish	{ repeat _x ,
+repeatCount
+
+,  repeat
+	u16
+    matchKey`
+`
+	,
+    // " ++ [128512]%N ++ runes_of_ascii " emoji
+	// a // b
+
+	matchKey
+
+    @calculatedFrom(
+    ""a\""b""
+)	`it's`
+,
+	}
+
+    ,  @tag(	007
+)@calculatedFrom( ""a\\""	) 
+@tag(  3// @lengthOf(
+  )
+	f32 
+f32a@lengthOf(
+    asx  ) `crlf
+line`// packet A { u8 x, }
+  ,	repeat i8
+string_	, @lengthOf(
+	// @lengthOf(
+Logon	)  @lengthOf( x_y_z ) 
+@lengthOf( zchar
+    )
+	repeat  char[ 65535
+	]
+    Foo `" ++ [233]%N ++ runes_of_ascii "`
+	,@calculatedFrom(	//
+	""abc""
+	)
+
+trueish	@lengthOf(A
+    ) 
+    // " ++ [27880; 37322]%N ++ runes_of_ascii "
+// a // b
+  ,
+    char[ 0
+    ]
+
+    float
+    ,Packet
+
+    @calculatedFrom(	""a	b"" ),
+	}
+	MetaData 
+Pad {
+
+    char[ 00
+	]leftPad
+,	u8
+
+rootA`
+` 
+, 
+    //
+  	// " ++ [128512]%N ++ runes_of_ascii " emoji
+
+	int32
+a1 `say ""hi""`
+, Z9_ float,  //x
+i32
+Pad
+
+,
+    }
+
+")).
+Eval vm_compute in ("<<<M1576>>>" ++ check (runes_of_ascii "MetaData lengthOf {
+}
+
+MetaData falsey {
+    // " ++ [27880; 37322]%N ++ runes_of_ascii "
+    falsey i64_ `
+    `,
+    zchar[255] u `two words`,
+    BodyLength int,
+    matchKey i8i8 `crlf
+    line`,
+    uint8x asx,
+    char[] options1,
+}
+
+packet asx {
+    @lengthOf(o)
+    @calculatedFrom(""\n"")
+    char[] lengthOf `two words`,
+    BodyLength `" ++ [233]%N ++ runes_of_ascii "`,
+    repeat u8x len `doc`,
+    int @calculatedFrom(""a\\"") `line1
+    line2`,
+    @lengthOf(MetaDataX)
+    Packet packetx,
+    a1 {
+        match Logon as len {
+            4294967296 : matchKey,
+            [
+                1, 10, 10, ""{,}"", """ ++ [233]%N ++ runes_of_ascii "t" ++ [233]%N ++ runes_of_ascii """,
+                0123456789
+            ] : leftPad,
+            3 : msg_type,
+            //	t
+            //x
+            1 : As,
+        },
+        chars,
+    },
+}")).
+Eval vm_compute in ("<<<M1508>>>" ++ check (runes_of_ascii "// top
+		root // c0
+    packet  // c1
+    _x 
+	    // c2
+  { match 
+// c4
+    Foo // c5
+  as  // c6a
+	// c6b
+    	Z9_	{ 
+  // c8
+
+	""a	b"" 	 // c9a
+	// c9b
+: 	 // c10
+
+Pad 	 // c11
+
+, 
+    // c12
+
+	}
+	, // c14
+
+	repeat // c15a
+// c15b
+
+x  `line1
+line2`  
+      // c17
+    ,	// c18
+    @rightPad// c19a
+	// c19b
+	(
+
+    // c20
+    ' ' 	 // c21
+) // c22
+	@calculatedFrom(""a\\"" 
+// c24
+
+	)  // c25a
+  // c25b
+	metadata MetaDataX 
+	    // c27
+      ,
+@tag(
+// c29
+  0
+
+    )// c31
+Logon
+    int
+    // c33
+    `` 
+
+// c34
+  , 
+	// c35
+    }// c36
+  options // c37
+{ 
+
+    // c38
+  T // c39
+
+=  // c40a
+		// c40b
+  '\x00'  }  // c42a
+
+// c42b
+")).
+Eval vm_compute in ("<<<M305>>>" ++ check (runes_of_ascii "packet
+pack{ u8 x ,
+char[
+    255 ]trueish
+@calculatedFrom(
+""// no comment"" ) `tab	here`,	@lengthOf( asx) repeat //
+zchar[
+0
+] stringy `
+`, @leftPad( '0' ) @calculatedFrom( // trailing space 
+""abc"" )
+    @calculatedFrom( ""it's""
+) char[] packetx@calculatedFrom( ""a	b"" ) `doc` , repeat string len
+    `two words`
+, uint16 matchKey
+    @lengthOf(
+    asx ) ,zchar[ 0 ]
+x `it's` // trailing space 
+, }
+    packet packetx {body  , string trueish `" ++ [233]%N ++ runes_of_ascii "` , @tag(255 )
+@tag(
+3
 // packet A { u8 x, }
 //	t
-""" ++ [233]%N ++ runes_of_ascii "t" ++ [233]%N ++ runes_of_ascii """	, ""{,}"" ,	""abc""
-    , """ ++ [233]%N ++ runes_of_ascii "t" ++ [233]%N ++ runes_of_ascii """]:int, 4294967296 : tag , } , }
-")).
-Eval vm_compute in ("<<<M1380>>>" ++ check (runes_of_ascii "// top
-options // c0
-{ // c1
-LittleEndian = true
-    // c4
-;
-    // c5
-}
-    // c6
-packet // c7
-Logon
-    // c8
-{ // c9a
+) @calculatedFrom(
+    ""\n"" ) repeat f64 roots// trailing space 
+`" ++ [233]%N ++ runes_of_ascii "`	, /// triple
+} 	 ")).
+Eval vm_compute in ("<<<M1300>>>" ++ check (runes_of_ascii "// top
+packet // c0
+A { u8
+    // c3
+a , // c5a
+  // c5b
+} // c6
+packet
+    // c7
+B { // c9a
   // c9b
-u8 // c10
-x // c11
-,
-    // c12
-string
+u16 // c10a
+  // c10b
+b // c11
+, // c12
+}
     // c13
-user
-    // c14
-,
-    // c15
-} // c16
-packet // c17
-Logout {
-    // c19
-u16 // c20a
-  // c20b
-reason // c21a
-  // c21b
-, // c22
-}
-    // c23
-packet
-    // c24
-Empty { // c26a
-  // c26b
-}
+root packet // c15a
+  // c15b
+P { // c17
+u8 // c18
+K // c19
+, // c20
+match // c21
+K // c22
+as // c23
+M // c24a
+  // c24b
+{
+    // c25
+[ // c26
+1
     // c27
-root // c28
-packet
-    // c29
-Frame // c30
-{ // c31
-u16 // c32a
+,
+    // c28
+2 // c29a
+  // c29b
+] // c30a
+  // c30b
+: // c31a
+  // c31b
+A // c32a
   // c32b
-MsgType , // c34a
-  // c34b
-u8 BodyLen // c36a
+, 3
+    // c34
+: // c35
+B // c36a
   // c36b
-@lengthOf(
-    // c37
-Body
-    // c38
-) , // c40a
-  // c40b
-u8 // c41a
-  // c41b
-flags // c42a
-  // c42b
-, Logon // c44a
-  // c44b
-Body
-    // c45
-, // c46a
-  // c46b
-u32 // c47a
-  // c47b
-trailer // c48a
-  // c48b
-, // c49a
-  // c49b
-} // c50a
-  // c50b
-")).
-Eval vm_compute in ("<<<M1780>>>" ++ check (runes_of_ascii "packet tag {
-    @calculatedFrom(""x y"")
-    lengthOf {
-        options1 `
-        `,
-    },
-    @tag(7)
-    int {
-        //x
-        // " ++ [27880; 37322]%N ++ runes_of_ascii "
-        char[007] calculatedFrom @lengthOf(metadata),
-        tag @lengthOf(falsey),
-        f32 calculatedFrom `{ , }`,
-        i8i8 {
-            string i64_ @lengthOf(asx) `it's`,
-            u @calculatedFrom(""\n""),
-        },
-    },
-    @calculatedFrom(""abc"")
-    @leftPad(' ')
-    uint64 calculatedFrom,// " ++ [27880; 37322]%N ++ runes_of_ascii "
+, 7 // c38
+: // c39a
+  // c39b
+A // c40
+, // c41
+} ,
+    // c43
 }
-
-packet o {
-    Header,
-    @lengthOf(i8i8)
-    float32 Pad,
-    char[42] leftPad @calculatedFrom(""""),
-    @tag(255)
-    body u,
-}
-
-packet lengthOf {
-    // packet A { u8 x, }
-    // c
-    @tag(255)
-    char[0123456789] o `
-    `,
-}")).
-Eval vm_compute in ("<<<M247>>>" ++ check (runes_of_ascii "
-options { leftPad // packet A { u8 x, }
-= 0
-;
-    //
-    Logon
-    =
-char // `tick` ""quote"" 'q'
-i64_ = '\x00'
-; }
-options { crc =
-i32	; matchKey =
-255
-    leftPad = ' ' ; metadata= 42// trailing space 
-; packetx =10
-    }
-root packet//
-A { @calculatedFrom( ""x y"" // c
-)/// triple
-zchar[ 00]
-f32a, @tag(
-255 )
-    zchar[
-0123456789 ]	a1
-@lengthOf(As )`" ++ [28040; 24687; 31867; 22411]%N ++ runes_of_ascii "`
-    /// triple
-    , int16 body, // `tick` ""quote"" 'q'
-uint64
-x
-@calculatedFrom(""1""
-//	t
-// " ++ [128512]%N ++ runes_of_ascii " emoji
-) // packet A { u8 x, }
-`line1
-line2` ,@lengthOf( Logon )char[
-    0// packet A { u8 x, }
-]float@calculatedFrom(
-""abc"" ) ,
-} MetaData u128 { }
+    // c44
 ")).
-Eval vm_compute in ("<<<M1366>>>" ++ check (runes_of_ascii "
-options {
+Eval vm_compute in ("<<<M1902>>>" ++ check (runes_of_ascii "options
+    {	// c1a
 
-    StringPrefixLenType	= u8
-	;
-ArrayPrefixLenType	= u8  ; FixedStringPadFromLeft
-    =
-    false ;
-FixedStringPadChar
-=
-    ' '
-;
-    }
+  // c1b
+	LittleEndian  
+  // c2
+  = 	 // c3
+	true  // c4
 
-packet Ack
-	{ char[] 
-tag7 ,}
+  ; }	// c6a
+		// c6b
+  packet
 
-    packet
-Reject
-	{
-	InSym61 { 
-repeat
-Ack ,zchar[
-4
-	]
-f1
-	,	}	,	}
-
-packet 
-Logout 
-{
-    char[
-
-4 ]clOrdID
-
-,}
-
-root  packet
-	Cancel  { @leftPad
-( ' '	)
-
-char[  10	]
-price,u8 x
-
-    ,
-	u32 venue
-
-    @lengthOf(
-    Body
-)
+    B
+	{  u8	// c10a
+// c10b
+a 
+      // c11
+  , // c12a
+// c12b
+	string	// c13
+s  // c14
 
 ,
-match
-	x as Body 
-{
-    [
-	92,
+	}	// c16
+  root // c17a
+    // c17b
+      packet
 
-175
+// c18
+    P  // c19
+    {
 
-]:
-	Logout
+u16 // c21
+	L @lengthOf(
+    B
+)// c25a
+	// c25b
 
-,26
+,  // c26a
 
-: Reject 
-, 144 :Ack
+// c26b
+B  // c27a
+	// c27b
+, 
+  // c28
+		u8 
+  // c29
+    t 	 // c30
+		, // c31
 
-, }
-,u16
-
-    count
-	@calculatedFrom( ""CRC32""
-
-),
-} ")).
-Eval vm_compute in ("<<<M1420>>>" ++ check (runes_of_ascii "// top
-
+  }	// c32a
+  // c32b")).
+Eval vm_compute in ("<<<M1192>>>" ++ check (runes_of_ascii "// top
 MetaData
     // c0
-
-  uint8x 
+uint8x
     // c1
-{ 
-// c2
-    char[] 
-        // c3
-	f32a 
-	// c4
-		`// not a comment`
-
+{
+    // c2
+char[]
+    // c3
+f32a
+    // c4
+`// not a comment`
     // c5
-
-,  
-      // c6
-  float32
-        // c7
-  roots 
+,
+    // c6
+float32
+    // c7
+roots
     // c8
-    ,
-
-// c9
-	  char[ 
-	// c10
-  7 
-	    // c11
-] 
-        // c12
-    u8x 
+,
+    // c9
+char[
+    // c10
+7
+    // c11
+]
+    // c12
+u8x
     // c13
-, 
+,
     // c14
-		zchar[ 
-// c15
-		10
-
-// c16
-
-	]
+zchar[
+    // c15
+10
+    // c16
+]
     // c17
-	f32a  
-      // c18
-    , 
-  // c19
-  u64 
-
-// c20
-  pack 
-
-// c21
-, 
-
-// c22
-u16 
-  // c23
-  pack
-
+f32a
+    // c18
+,
+    // c19
+u64
+    // c20
+pack
+    // c21
+,
+    // c22
+u16
+    // c23
+pack
     // c24
-, 
+,
     // c25
 }
-        // c26")).
-Eval vm_compute in ("<<<M1594>>>" ++ check (runes_of_ascii "
-
-  MetaData  T { a1
-
-Packet,	// " ++ [128512]%N ++ runes_of_ascii " emoji
-uint8x
-
-    // @lengthOf(
-    	//x
-
-Pad`" ++ [233]%N ++ runes_of_ascii "`,
-
-a1 
-    // " ++ [27880; 37322]%N ++ runes_of_ascii "
-  	MetaDataX  ,
-zchar[
-    00	]
-
-    metadata
-    `u8 x,` 
+    // c26
+")).
+Eval vm_compute in ("<<<M76>>>" ++ check (runes_of_ascii "packet rootA { repeat uint16 stringy `" ++ [233]%N ++ runes_of_ascii "`
+,body
+@lengthOf( stringy ) , int32 matchKey // " ++ [27880; 37322]%N ++ runes_of_ascii "
 ,
-	Pad// trailing space 
-  x
-
-`
-`  ,i8 
-u8x
-,
-}  options	{  As 
-=
-
-    false  ; }	root
-
-packet options1
-    {
-	@calculatedFrom(""// no comment"" )
-@lengthOf( _x
-	)
-    @tag(
-	007
-)repeat
-// trailing space 
-
-// @lengthOf(
-  f32
-i8i8`" ++ [233]%N ++ runes_of_ascii "` , @rightPad  ( ' ' // " ++ [27880; 37322]%N ++ runes_of_ascii "
-
-)  repeat Pad
-,
-
-    }")).
-Eval vm_compute in ("<<<M1459>>>" ++ check (runes_of_ascii "options {
-}
-
-packet charz {
-    @rightPad(' ')
-    @calculatedFrom(""a\\"")
-    repeat int crc `two words`,
-    string stringy @calculatedFrom(""a	b"") `// not a comment`,//
-    char i8i8,
-}
-
-MetaData crc {
-    // `tick` ""quote"" 'q'
-    crc i64_ `{ , }`,
-    // `tick` ""quote"" 'q'
-    i32 u128,// packet A { u8 x, }
-    BodyLength Header,
-    char[0123456789] Packet `u8 x,`,
-    uint8 repeatCount,//	t
-}")).
-Eval vm_compute in ("<<<M1929>>>" ++ check (runes_of_ascii "options
-{ LittleEndian	=true  ;
-	}
-
-packet 
-Logon {  u8 x  ,
-    }
-    packet
-	Logout
-    {
-
-u16 reason
-,
-	}
-
-    root
-	packet
-
-    Frame  {
-
-u64
-
-    Kind
-
-    ,
-	u64
-	Kind2
-
-    ,
-	match Kind
-as
-
-    Body {
-
-1	:Logon
-,[
-    2
-	, 3 
-, 
-4 ]
-:Logout ,
-
-    100:
-	Logon
-,
-},  match
-    Kind2 as
-
-    Trailer  {
-    0
-
-    : Logout
-,
-} 
-,}")).
-Eval vm_compute in ("<<<M1896>>>" ++ check (runes_of_ascii "packet a1 {
-    @leftPad()
-    float @lengthOf(uint8x),
-}
-
-packet Logon {
-    char Logon @calculatedFrom(""a\\""),
-    T stringy,
-    //
-    // c
-    repeat uint8 stringy `two words`,
-}
-
-MetaData charz {
-    u tag `
-    `,
-    a1 falsey,//x
-    Z9_ matchKey,
-    f64 lengthOf `a\`,
-    f32a roots ``,
-    float64 x_y_z,
-}")).
-Eval vm_compute in ("<<<M89>>>" ++ check (runes_of_ascii "packet Foo // " ++ [128512]%N ++ runes_of_ascii " emoji
-{@lengthOf( f32a )
-char[
-0123456789 //	t
-] float `u8 x,` ,}
-    packet // a // b
-i64_ {@lengthOf(stringy // packet A { u8 x, }
+    @lengthOf(roots)@calculatedFrom( ""a\""b""
+) @leftPad(' ') i64
+    leftPad
+@lengthOf( repeatCount )
+`u8 x,` , //	t
+f64 len
+    @lengthOf( BodyLength// trailing space 
+) `// not a comment` , @rightPad
+(
 )
-    char[] int @calculatedFrom(""{,}"" ) ,@tag(
-007 ) //
-int64
-stringy`" ++ [233]%N ++ runes_of_ascii "` ,  char[]A @calculatedFrom(
-""\" ++ [233]%N ++ runes_of_ascii """
-    )	`doc` ,// " ++ [27880; 37322]%N ++ runes_of_ascii "
+    @leftPad ( '0')repeat
+string len
+, // c
+char[] chars `two words`	, } //	t")).
+Eval vm_compute in ("<<<M1744>>>" ++ check (runes_of_ascii "  packet
+
+crc	{match 
+trueish as 
+len { 42 
+: 
+uint8x
+, // " ++ [128512]%N ++ runes_of_ascii " emoji
+    ""1"" 
+: asx
+
+, 3
+:
+
+body	[ ""1""  ,
+	0123456789]
+
+    :	u ""packet"" :
+o
+,
+}	, 
+} MetaData
+tag{string
+	o `line1
+line2`
+    ,  char[]	//
+Header  `{ , }` 	 // c
+	,
+uint8x Z9_,
+}MetaData tag {
+    i8
+len,
+	}options  //x
+  {  
+  // `tick` ""quote"" 'q'
+    	/// triple
+	x
+=
+10
+
+; }")).
+Eval vm_compute in ("<<<M1773>>>" ++ check (runes_of_ascii "packet float {
+    // c2
+    @rightPad()
+    // c5a
+    // c5b
+    rootA @lengthOf(trueish),
+    // c10
+    stringy @lengthOf(matchKey),// c15a
+    // c15b
+    char[4294967296] pack @lengthOf(uint8x),
+    // c23
+}// c24
+
+root packet trueish {
+    // c28
+    repeat uint64 u128 `line1
+        line2`,
+    // c33
 }
-")).
-Eval vm_compute in ("<<<M202>>>" ++ check (runes_of_ascii "packet Z9_
-    { @calculatedFrom( ""packet"") char //
-BodyLength , match chars as falsey {[65535,
-    // c
-    """ ++ [128512]%N ++ runes_of_ascii """ ,""" ++ [28040; 24687]%N ++ runes_of_ascii """ , ""`tick`""  , 10,
-    ""a\\"" ,""a\""b"" // @lengthOf(
-]: repeatCount , ""x y"" :chars , // " ++ [128512]%N ++ runes_of_ascii " emoji
-65535
-://x
-calculatedFrom , } , }
-")).
-Eval vm_compute in ("<<<M364>>>" ++ check (runes_of_ascii "packet  _x
-{ repeat char[] matchKey// " ++ [128512]%N ++ runes_of_ascii " emoji
-, @leftPad( ) x_y_z/// triple
-T , Pad
-{ zchar[ 1] rootA `tab	here`
-,},Foo
+// c34")).
+Eval vm_compute in ("<<<M35>>>" ++ check (runes_of_ascii "  packet Header
+{ @calculatedFrom( // a // b
+""a	b"" )
+char[
+    255] falsey `tab	here`,int8
+    // " ++ [27880; 37322]%N ++ runes_of_ascii "
+    u
+`doc` , float32 lengthOf
     @calculatedFrom(
-    """"
-    // trailing space 
-    ),
-}	packet MetaDataX {
-float64 body, }
+""a	b""  )
+    // a // b
+    , @rightPad (
+' '  ) @tag( 3
+) float64 asx
+    ,
+int8 metadata @lengthOf(zchar )// a // b
+,Pad f32a , }")).
+Eval vm_compute in ("<<<M1291>>>" ++ check (runes_of_ascii "// top
+root
+    // c0
+packet
+    // c1
+P // c2a
+  // c2b
+{ // c3
+u8 // c4
+s_u8 // c5a
+  // c5b
+, // c6
+repeat u8 // c8a
+  // c8b
+r_u8 // c9a
+  // c9b
+,
+    // c10
+u16 // c11a
+  // c11b
+b_len // c12a
+  // c12b
+, // c13a
+  // c13b
+} // c14a
+  // c14b
 ")).
-Eval vm_compute in ("<<<M1509>>>" ++ check (runes_of_ascii "packet A {
-    Inner {
-        match k as n {
-            [
-                1, 22, 007, 4, 5,
-                66, 7, 8, 9, 10,
-                11, 12
-            ] : B,
-        },
-    },
+Eval vm_compute in ("<<<M82>>>" ++ check (runes_of_ascii "packet metadata
+{int32 calculatedFrom , } options {} options { u128 = '\x00'	;
+    string_ =	""abc""
+    ; }root
+packet i8i8
+    {  @rightPad
+( '\x00' ) repeat	metadata { string_,
+    tag@lengthOf( falsey ) ,
+} ,//x
 }")).
+Eval vm_compute in ("<<<M311>>>" ++ check (runes_of_ascii "MetaData
+falsey { Header falsey
+`
+` , string Foo `" ++ [28040; 24687; 31867; 22411]%N ++ runes_of_ascii "`
+    // `tick` ""quote"" 'q'
+    ,falsey repeatCount , i8
+u , }
+packet A	{ match _x as T { 007: lengthOf// `tick` ""quote"" 'q'
+}, } 	 ")).
 Eval vm_compute in ("<<<M191>>>" ++ check (runes_of_ascii "options
 { Logon
 =char[	00
@@ -882,9 +776,20 @@ zchar
 ; // `tick` ""quote"" 'q'
 }
 ")).
-Eval vm_compute in ("<<<M418>>>" ++ check (runes_of_ascii "packet uint8x
+Eval vm_compute in ("<<<M481>>>" ++ check (runes_of_ascii "packet uint8x
 { match pack
-    @rightPad msg_type	{
+    as msg_type	{
+    0123456789 :	float
+}
+,
+} packet //	t
+a1
+    { } options options {packetx
+    = '\x00'	; u128= ""a	b""  ; }
+")).
+Eval vm_compute in ("<<<M413>>>" ++ check (runes_of_ascii "packet uint8x
+{ match float32
+    as msg_type	{
     0123456789 :	float
 }
 ,
@@ -893,59 +798,26 @@ a1
     { } options {packetx
     = '\x00'	; u128= ""a	b""  ; }
 ")).
-Eval vm_compute in ("<<<M552>>>" ++ check (runes_of_ascii "packet uint8x
-{ match pack
-    as msg_type	{
-    0123456789 :	float
-}
-,
-} packet //	t
-na" ++ [239]%N ++ runes_of_ascii "ve
-    { } options {packetx
-    = '\x00'	; u128= ""a	b""  ; }
-")).
-Eval vm_compute in ("<<<M536>>>" ++ check (runes_of_ascii "packet uint8x
-{ match pack
-    as msg_type	{
-    0123456789 :	float
-}
-,
-} packet //	t
-a1
-    { } options {packetx
-    = '\x00'	/; u128= ""a	b""  ; }
-")).
-Eval vm_compute in ("<<<M477>>>" ++ check (runes_of_ascii "packet uint8x
-{ match pack
-    as msg_type	{
-    0123456789 :	float
-}
-,
-} packet //	t
-a1
-    { options } {packetx
-    = '\x00'	; u128= ""a	b""  ; }
-")).
-Eval vm_compute in ("<<<M676>>>" ++ check (runes_of_ascii "// @lengthOf(
+Eval vm_compute in ("<<<M701>>>" ++ check (runes_of_ascii "// @lengthOf(
 packet i8i8 { u128 o , }
 options { MetaDataX = true;
-    BodyLength =""packet"" x_y_z x_y_z= 007
+    BodyLength =""packet"" ""packet"" x_y_z= 007
 crc //x
 = ""abc"" ;
     msg_type =
 i16 }")).
-Eval vm_compute in ("<<<M520>>>" ++ check (runes_of_ascii "packet uint8x
+Eval vm_compute in ("<<<M462>>>" ++ check (runes_of_ascii "packet uint8x
 { match pack
     as msg_type	{
     0123456789 :	float
 }
 ,
-} packet //	t
-a1
+} a1 //	t
+packet
     { } options {packetx
-    = '\x00'	; u128=   ; }
+    = '\x00'	; u128= ""a	b""  ; }
 ")).
-Eval vm_compute in ("<<<M529>>>" ++ check (runes_of_ascii "packet uint8x
+Eval vm_compute in ("<<<M525>>>" ++ check (runes_of_ascii "packet uint8x
 { match pack
     as msg_type	{
     0123456789 :	float
@@ -954,229 +826,271 @@ Eval vm_compute in ("<<<M529>>>" ++ check (runes_of_ascii "packet uint8x
 } packet //	t
 a1
     { } options {packetx
-    = '\x00'	; u128= ""a	b""")).
-Eval vm_compute in ("<<<M646>>>" ++ check (runes_of_ascii "// @lengthOf(
-packet i8i8 { u128 o , }
-options { MetaDataX = true;
-    BodyLength =""packet"" x_y_z= 
-crc //x
-= ""abc"" ;
-    msg_type =
-i16 }")).
-Eval vm_compute in ("<<<M1458>>>" ++ check (runes_of_ascii "
-packet	A
+    = '\x00'	; u128= ""a	b""   }
+")).
+Eval vm_compute in ("<<<M398>>>" ++ check (runes_of_ascii "packet [
+{ match pack
+    as msg_type	{
+    0123456789 :	float
+}
+,
+} packet //	t
+a1
+    { } options {packetx
+    = '\x00'	; u128= ""a	b""  ; }
+")).
+Eval vm_compute in ("<<<M480>>>" ++ check (runes_of_ascii "packet uint8x
+{ match pack
+    as msg_type	{
+    0123456789 :	float
+}
+,
+} packet //	t
+a1
+    { }  {packetx
+    = '\x00'	; u128= ""a	b""  ; }
+")).
+Eval vm_compute in ("<<<M430>>>" ++ check (runes_of_ascii "packet uint8x
+{ match pack
+    as msg_type	{
+     :	float
+}
+,
+} packet //	t
+a1
+    { } options {packetx
+    = '\x00'	; u128= ""a	b""  ; }
+")).
+Eval vm_compute in ("<<<M1789>>>" ++ check (runes_of_ascii "  //
+  packet metadata
 {
 
-match 
-k as n  {[
-""a"" ,
+    }MetaData
 
-""bb""
-    ,""c c"" ,""d"" 
-,
-""e"" ,""f""
+    chars
+	    //x
+  //	t
+  { char[
+42
 
-,
-""g""
+    ] leftPad`crlf
+line`
+
     ,
 
-    ""h"" ,  ""i""
-
-    ] :
-
-B 
-2:
-C
-} ,
-}
+    }
 
 ")).
-Eval vm_compute in ("<<<M1721>>>" ++ check (runes_of_ascii "// c
-MetaData leftPad {
-    chars MetaDataX,
+Eval vm_compute in ("<<<M1477>>>" ++ check (runes_of_ascii "
+MetaData
+    uint8x {char[
+
+007 ]leftPad,
+
+    Pad 
+T	, u64 BodyLength
+,char[]
+int , float
+	Z9_,
+
+float32 metadata
+
+    ,}
+")).
+Eval vm_compute in ("<<<M1589>>>" ++ check (runes_of_ascii "packet B {
+    u8 a,
 }
 
-packet repeatCount {
-    char[255] uint8x `" ++ [233]%N ++ runes_of_ascii "`,
-}
-
-MetaData pack {
-    As Foo,
+root packet P {
+    u8 K,
+    u8 L @lengthOf(Body),
+    match K as Body {
+        1 : B,
+    },
 }")).
-Eval vm_compute in ("<<<M34>>>" ++ check (runes_of_ascii "options {
-Logon = 0 } options { msg_type = 3
-    MetaDataX =
+Eval vm_compute in ("<<<M1160>>>" ++ check (runes_of_ascii "MetaData leftPad { chars MetaDataX , } packet repeatCount
+// c
+{ char[ 255 ] uint8x `" ++ [233]%N ++ runes_of_ascii "` , } MetaData pack { As Foo , }")).
+Eval vm_compute in ("<<<M218>>>" ++ check (runes_of_ascii "
+MetaData
+uint8x { char[ 007
+    ]leftPad ,Pad
+T ,u64 BodyLength , char[] int  ,float
+Z9_ , float32 metadata
+    , }
+")).
+Eval vm_compute in ("<<<M1803>>>" ++ check (runes_of_ascii "
+
+  packet
+
+u
+
+{ 
+@tag(	10 // a // b
+)tag  @lengthOf(A
+
     // " ++ [128512]%N ++ runes_of_ascii " emoji
-    int8
-    uint8x=""""
-    ;
-    As = '0' }")).
-Eval vm_compute in ("<<<M1165>>>" ++ check (runes_of_ascii "MetaData leftPad { chars MetaDataX , } packet repeatCount { char[ 255 // c
-] uint8x `" ++ [233]%N ++ runes_of_ascii "` , } MetaData pack { As Foo , }")).
-Eval vm_compute in ("<<<M938>>>" ++ check (runes_of_ascii "packet A {
+    // a // b
+
+),repeat  options1 , }
+
+")).
+Eval vm_compute in ("<<<M1276>>>" ++ check (runes_of_ascii "options {
+    LittleEndian = true;
+}
+root packet P {
+    u16 a,
+    u32 Sum @calculatedFrom(""CRC32""),
+}
+")).
+Eval vm_compute in ("<<<M950>>>" ++ check (runes_of_ascii "packet A {
     Inner {
-        u8 x `a
-    b
-  c`,
+        u8 x `x
+`,
         Deep {
-            u8 y `a
-    b
-  c`,
+            u8 y `x
+`,
         },
     },
 }")).
-Eval vm_compute in ("<<<M973>>>" ++ check (runes_of_ascii "packet A {
-    match k as n {
-        ""\
-"" : B,
-        [""\
-"", 1] : C,
-        [1,2,3,4,5,""\
-""] : D,
-    },
-}")).
-Eval vm_compute in ("<<<M1726>>>" ++ check (runes_of_ascii "
-packet
-
-A
-	{
-	match
-k
-	as	n 
-{	[1  ,
-
-    ""bb"",  007	,""d""
-
-    , 5 ]:
-
-    B
-    2
-
-:C
-}
-
-, }
-
+Eval vm_compute in ("<<<M1>>>" ++ check (runes_of_ascii "MetaData  crc {  Pad T
+, zchar[
+    0123456789
+    ] a1 ,int8 trueish// c
+, } packet float{ }
 ")).
-Eval vm_compute in ("<<<M583>>>" ++ check (runes_of_ascii "
+Eval vm_compute in ("<<<M869>>>" ++ check (runes_of_ascii "packet A {
+  match k as n {
+    [1, ""bb"", 007, ""d"", 5, ""f"", 7, ""h"", 9] : B,
+    2 : C
+  },
+}")).
+Eval vm_compute in ("<<<M633>>>" ++ check (runes_of_ascii "
 packet
-    asx {match u128 as lengthOf lengthOf
+    asx {match u128 as `lengthOf
 {
 //	t
 // `tick` ""quote"" 'q'
 255 : x ,
     } ,	}")).
-Eval vm_compute in ("<<<M1254>>>" ++ check (runes_of_ascii "
-packet
-    Inner {
-    u8 a
-
-,
-} root
-	packet P
-
-    {  repeat
-    Inner items,	u8 
-x	, } ")).
-Eval vm_compute in ("<<<M474>>>" ++ check (runes_of_ascii "packet uint8x
-{ match pack
-    as msg_type	{
-    0123456789 :	float
+Eval vm_compute in ("<<<M1821>>>" ++ check (runes_of_ascii "MetaData crc {
+    Pad T,
+    zchar[0123456789] a1,
+    int8 trueish,
 }
-,
-} packet //	t
-a1")).
-Eval vm_compute in ("<<<M1704>>>" ++ check (runes_of_ascii "options
 
-    {}  // " ++ [128512]%N ++ runes_of_ascii " emoji
-      options { float// `tick` ""quote"" 'q'
-  = 65535
-    }
+packet float {
+}")).
+Eval vm_compute in ("<<<M1534>>>" ++ check (runes_of_ascii "
+packet A {
+
+    Inner { match
+k as
+n
+    {	[
+
+1
+
+    , 22
+]
+
+: B ,	}
+, 
+} 
+, }
 ")).
-Eval vm_compute in ("<<<M857>>>" ++ check (runes_of_ascii "packet A {
+Eval vm_compute in ("<<<M847>>>" ++ check (runes_of_ascii "packet A {
   match k as n {
-    [1, ""bb"", 007, ""d"", 5, ""f"", 7, ""h""] : B
+    [1, 22, ""c c"", 4, 5, ""f"", 7] : B,
     2 : C
   },
 }")).
-Eval vm_compute in ("<<<M390>>>" ++ check (runes_of_ascii "root packet SimpleMessage {
-	uint16 MsgType `" ++ [28040; 24687; 31867; 22411]%N ++ runes_of_ascii "`,
-	string JsonBody `Json" ++ [23383; 31526; 20018; 28040; 24687; 20307]%N ++ runes_of_ascii "`,
-}")).
-Eval vm_compute in ("<<<M853>>>" ++ check (runes_of_ascii "packet A {
-  match k as n {
-    [1, 22, 007, 4, 5, 66, 7, 8] : B
-    2 : C
-  },
-}")).
-Eval vm_compute in ("<<<M743>>>" ++ check (runes_of_ascii "int16 zchar[ } `doc` char u16 uint16 true false u8 msg_type """ ++ [233]%N ++ runes_of_ascii "t" ++ [233]%N ++ runes_of_ascii """ ""a\\"" pack")).
-Eval vm_compute in ("<<<M805>>>" ++ check (runes_of_ascii "packet A {
-  match k as n {
-    [1, ""bb"", 007, ""d""] : B
-    2 : C
-  },
-}")).
-Eval vm_compute in ("<<<M1920>>>" ++ check (runes_of_ascii "
-packet A
+Eval vm_compute in ("<<<M1766>>>" ++ check (runes_of_ascii "
 
-{ u8
-    x
-, }// a
-		// b
-		packet
-B { }  // c
-  // d")).
-Eval vm_compute in ("<<<M155>>>" ++ check (runes_of_ascii "options
-{calculatedFrom
-= ""abc""
-;float=i16
-} // trailing space ")).
-Eval vm_compute in ("<<<M1091>>>" ++ check (runes_of_ascii "packet A { @leftPad() char[4] x, @rightPad( ) zchar[2] y, }")).
-Eval vm_compute in ("<<<M1810>>>" ++ check (runes_of_ascii "packet body {
-    i32 f32a `{ , }`,
-}
+  options
+    {  // " ++ [128512]%N ++ runes_of_ascii " emoji
+    Packet 
+=// `tick` ""quote"" 'q'
 
-options {
-}
-// c")).
-Eval vm_compute in ("<<<M1210>>>" ++ check (runes_of_ascii "packet body { i32 f32a `{ , }`
-// c
-, } options { }")).
-Eval vm_compute in ("<<<M1455>>>" ++ check (runes_of_ascii "MetaData _x {
-    i64 u128,
-    Packet Header,
+  char[ 3
+]} ")).
+Eval vm_compute in ("<<<M811>>>" ++ check (runes_of_ascii "packet A {
+  match k as n {
+    [""a"", ""bb"", 007, ""d""] : B
+    2 : C
+  },
 }")).
-Eval vm_compute in ("<<<M957>>>" ++ check (runes_of_ascii "MetaData M {
+Eval vm_compute in ("<<<M797>>>" ++ check (runes_of_ascii "packet A {
+  match k as n {
+    [""a"", ""bb"", 007] : B,
+    2 : C
+  },
+}")).
+Eval vm_compute in ("<<<M780>>>" ++ check (runes_of_ascii "packet A {
+  match k as n {
+    [""a"", ""bb""] : B,
+    2 : C
+  },
+}")).
+Eval vm_compute in ("<<<M939>>>" ++ check (runes_of_ascii "MetaData M {
+    u8 x `a
+    b
+  c`,
+    T t `a
+    b
+  c`,
+}")).
+Eval vm_compute in ("<<<M1933>>>" ++ check (runes_of_ascii "MetaData M {
     u8 x `
-x`,
+        `,
     T t `
-x`,
+        `,
 }")).
-Eval vm_compute in ("<<<M1396>>>" ++ check (runes_of_ascii "packet 
-A
+Eval vm_compute in ("<<<M1200>>>" ++ check (runes_of_ascii "packet
+// c
+body { i32 f32a `{ , }` , } options { }")).
+Eval vm_compute in ("<<<M251>>>" ++ check (runes_of_ascii "
+root packet
+chars
+{
+    i16 leftPad
+    , }
+")).
+Eval vm_compute in ("<<<M1850>>>" ++ check (runes_of_ascii "options {
+    a1 = ""packet"";
+}// @lengthOf(")).
+Eval vm_compute in ("<<<M1759>>>" ++ check (runes_of_ascii "root packet chars {
+    i16 leftPad,
+}")).
+Eval vm_compute in ("<<<M928>>>" ++ check (runes_of_ascii "root packet A {
+    u8 x `a
+b`,
+}")).
+Eval vm_compute in ("<<<M1405>>>" ++ check (runes_of_ascii "options {
+    u8x = ""packet"";
+}")).
+Eval vm_compute in ("<<<M1077>>>" ++ check (runes_of_ascii "MetaData M {
+}// c
+options {}")).
+Eval vm_compute in ("<<<M1450>>>" ++ check (runes_of_ascii "
+// packet A { u8 x, }
+ 
+")).
+Eval vm_compute in ("<<<M153>>>" ++ check (runes_of_ascii "// trailing space 
 
-    { 
-u8
-    x`a
-b` ,	}")).
-Eval vm_compute in ("<<<M1394>>>" ++ check (runes_of_ascii "options {
-    metadata = ""a\\"";
-}")).
-Eval vm_compute in ("<<<M978>>>" ++ check (runes_of_ascii "packet A {
- u8 x `d `, // c 
-}")).
-Eval vm_compute in ("<<<M757>>>" ++ check (runes_of_ascii "z>" ++ [65533]%N ++ runes_of_ascii "*" ++ [65533]%N ++ runes_of_ascii "7" ++ [65533; 65533; 65533; 65533]%N ++ runes_of_ascii "+" ++ [65533]%N ++ runes_of_ascii "~" ++ [65533; 0; 65533; 65533]%N ++ runes_of_ascii "c" ++ [1171]%N ++ runes_of_ascii "n" ++ [65533; 65533; 65533; 12; 65533]%N ++ runes_of_ascii "E>K")).
-Eval vm_compute in ("<<<M380>>>" ++ check (runes_of_ascii "root packet	Packet { }
 ")).
-Eval vm_compute in ("<<<M1626>>>" ++ check (runes_of_ascii "// `tick` ""quote"" 'q'")).
-Eval vm_compute in ("<<<M112>>>" ++ check (runes_of_ascii "packet falsey { }
-")).
-Eval vm_compute in ("<<<M1051>>>" ++ check (runes_of_ascii "packet A {
+Eval vm_compute in ("<<<M1131>>>" ++ check (runes_of_ascii "MetaData
+// c
+u { }")).
+Eval vm_compute in ("<<<M1022>>>" ++ check (runes_of_ascii "// c" ++ [8239]%N ++ runes_of_ascii "
+packet A {
+}")).
+Eval vm_compute in ("<<<M1004>>>" ++ check (runes_of_ascii "packet A {
+}// c" ++ [8202]%N)).
+Eval vm_compute in ("<<<M1071>>>" ++ check (runes_of_ascii "packet A {
 }
-// c" ++ [65279]%N)).
-Eval vm_compute in ("<<<M1082>>>" ++ check (runes_of_ascii "options { // a
- }")).
-Eval vm_compute in ("<<<M1709>>>" ++ check (runes_of_ascii "MetaData u {
-}")).
-Eval vm_compute in ("<<<M758>>>" ++ check (runes_of_ascii "LE]u'")).
-Eval vm_compute in ("<<<M730>>>" ++ check (runes_of_ascii "//")).
+
+
+")).
+Eval vm_compute in ("<<<M399>>>" ++ check (runes_of_ascii "packet")).
+Eval vm_compute in ("<<<M746>>>" ++ check (runes_of_ascii "UXk")).
